@@ -93,25 +93,14 @@ func c11(e *Env) {
 		ob4.Unknown("-", "audit write or rename not found in Execute's call tree")
 	}
 	ob4b := r.Ob("R4", "audit-builder:Upstream←loaded-record", "Upstream entries take FileIP.AuditInfo() of the input, i.e. the record loaded from disk when the input was not recomputed")
-	if bfn, bctx := e.auditBuilder(); bfn != nil {
+	if bfn, _ := e.auditBuilder(); bfn != nil {
 		found := false
-		for _, n := range g.Nodes {
-			mu, ok := n.Instr.(*ssa.MapUpdate)
-			if !ok {
-				continue
-			}
-			inB := false
-			for c := n.Ctx; c != nil; c = c.Parent {
-				if c == bctx {
-					inB = true
-				}
-			}
-			if f := fieldOfLoad(mu.Map); !inB || f == nil || f.Name() != "Upstream" {
+		for _, u := range e.recordUpdates() {
+			if u.field != "Upstream" {
 				continue
 			}
 			found = true
-			v := e.symbolizer().InCtx(n.Ctx, mu.Value)
-			ob4b.Check(isCallSym(v, "(*FileIP).AuditInfo"), g.Where(n), v.String(), "Upstream entry is "+v.String()+", not the input IP's AuditInfo()")
+			ob4b.Check(isCallSym(u.val, "(*FileIP).AuditInfo"), g.Where(u.n), u.val.String(), "Upstream entry is "+u.val.String()+", not the input IP's AuditInfo()")
 		}
 		if !found {
 			ob4b.Fail(core.FuncName(bfn), "no Upstream entry is set")
@@ -160,16 +149,24 @@ func (e *Env) c11WriterReader(ai *types.Named) {
 		obW.Unknown("-", "FileIP.WriteAuditLogToFile not found")
 	} else {
 		nOK := 0
-		for _, b := range w.Blocks {
-			for _, in := range b.Instrs {
-				c, ok := in.(*ssa.Call)
-				if !ok || c.Call.StaticCallee() == nil {
-					continue
+		// the writer's whole call tree (the encoding or the write may sit in private helpers)
+		gw := e.XG(w)
+		fsy := e.fsym()
+		var calls []*core.Node
+		if gw != nil {
+			for _, n := range gw.Nodes {
+				if _, isCall := n.Instr.(*ssa.Call); isCall && n.Call != nil && n.Call.StaticCallee() != nil && n.Kind != core.KAfter {
+					calls = append(calls, n)
 				}
+			}
+		}
+		{
+			for _, n := range calls {
+				c := n.Instr.(*ssa.Call)
 				switch nm := c.Call.StaticCallee().String(); nm {
 				case "io/ioutil.WriteFile", "os.WriteFile":
-					path := sy.InFunc(w, c.Call.Args[0])
-					data := sy.InFunc(w, c.Call.Args[1]).String()
+					path := fsy.InCtx(n.Ctx, c.Call.Args[0])
+					data := fsy.InCtx(n.Ctx, c.Call.Args[1]).String()
 					okP := isCallSym(path, fnAuditPath)
 					okD := (strings.Contains(data, "encoding/json.MarshalIndent(") || strings.Contains(data, "encoding/json.Marshal(")) && strings.Contains(data, "(*FileIP).AuditInfo(")
 					if okP && okD {
@@ -179,7 +176,7 @@ func (e *Env) c11WriterReader(ai *types.Named) {
 						obW.Fail(e.where(c), "writes "+trunc(data, 120)+" to "+path.Template())
 					}
 				case "os.OpenFile":
-					path := sy.InFunc(w, c.Call.Args[0])
+					path := fsy.InCtx(n.Ctx, c.Call.Args[0])
 					flags, isConst := c.Call.Args[1].(*ssa.Const)
 					if isCallSym(path, fnAuditPath) {
 						if !isConst || flags.Value == nil || flags.Value.Kind() != constant.Int || flags.Int64()&0x200 == 0 { // os.O_TRUNC
@@ -190,7 +187,7 @@ func (e *Env) c11WriterReader(ai *types.Named) {
 						}
 					}
 				case "os.Create":
-					if isCallSym(sy.InFunc(w, c.Call.Args[0]), fnAuditPath) {
+					if isCallSym(fsy.InCtx(n.Ctx, c.Call.Args[0]), fnAuditPath) {
 						nOK++
 						obW.OK(e.where(c), "os.Create (truncates)")
 					}
